@@ -175,6 +175,28 @@ impl SampleBuffer {
         }
     }
 
+    /// Add a placeholder entry of `width` fill values (NaN, 0, false or the empty string, the fill
+    /// values of the arrays) for an event on which this field has no value, so that the entries
+    /// of all fields of an event dimension stay aligned.
+    pub fn push_missing(&mut self, width: usize) -> Option<Chunk> {
+        assert!(self.len < self.full_at);
+        match &mut self.items {
+            SampleBufferValue::F64(vec) => vec.extend(std::iter::repeat_n(f64::NAN, width)),
+            SampleBufferValue::F32(vec) => vec.extend(std::iter::repeat_n(f32::NAN, width)),
+            SampleBufferValue::U64(vec) => vec.extend(std::iter::repeat_n(0u64, width)),
+            SampleBufferValue::I64(vec) => vec.extend(std::iter::repeat_n(0i64, width)),
+            SampleBufferValue::Bool(vec) => vec.extend(std::iter::repeat_n(false, width)),
+            SampleBufferValue::String(vec) => vec.extend(std::iter::repeat_n(String::new(), width)),
+        }
+        self.len += 1;
+
+        if self.len == self.full_at {
+            Some(self.finish_chunk())
+        } else {
+            None
+        }
+    }
+
     /// Total number of logical entries pushed since the last `reset()`.
     pub fn total_pushed(&self) -> u64 {
         self.current_chunk as u64 * self.full_at as u64 + self.len as u64
